@@ -47,15 +47,23 @@ func c09Bytes(toks []string, next string) []byte {
 	return b
 }
 
+// c09Reader delivers one chunk per Read call and never blocks. late counts the Read calls
+// issued although the complete head had already been delivered: on an open connection each
+// of them would be a wait for further input.
 type c09Reader struct {
-	chunks [][]byte
-	i      int
-	calls  int
-	given  int
+	chunks  [][]byte
+	i       int
+	calls   int
+	given   int
+	headLen int
+	late    int
 }
 
 func (r *c09Reader) Read(p []byte) (int, error) {
 	r.calls++
+	if r.given >= r.headLen {
+		r.late++
+	}
 	if r.i >= len(r.chunks) {
 		return 0, io.EOF
 	}
@@ -91,15 +99,31 @@ func c09OwnKey(k []byte) bool {
 	return true
 }
 
-// c09Parse runs one header parser over head (then cont), joined in one Read or split in two.
-func c09Parse(parser string, head, cont []byte, split bool) c09Outcome {
+// c09Chunks: the head cut at the given offsets (one chunk per Read call), the continuation
+// glued to the last head piece or delivered as a chunk of its own.
+func c09Chunks(head, cont []byte, cuts []int, contSeparate bool) [][]byte {
 	var chunks [][]byte
-	if split && len(cont) > 0 {
-		chunks = [][]byte{append([]byte(nil), head...), append([]byte(nil), cont...)}
-	} else {
-		chunks = [][]byte{append(append([]byte(nil), head...), cont...)}
+	prev := 0
+	for _, c := range cuts {
+		if c > prev && c < len(head) {
+			chunks = append(chunks, append([]byte(nil), head[prev:c]...))
+			prev = c
+		}
 	}
-	r := &c09Reader{chunks: chunks}
+	last := append([]byte(nil), head[prev:]...)
+	if len(cont) > 0 && !contSeparate {
+		last = append(last, cont...)
+	}
+	chunks = append(chunks, last)
+	if len(cont) > 0 && contSeparate {
+		chunks = append(chunks, append([]byte(nil), cont...))
+	}
+	return chunks
+}
+
+// c09Parse runs one header parser over head (then cont) delivered as c09Chunks.
+func c09Parse(parser string, head, cont []byte, cuts []int, contSeparate bool) c09Outcome {
+	r := &c09Reader{chunks: c09Chunks(head, cont, cuts, contSeparate), headLen: len(head)}
 	br := bufio.NewReaderSize(r, 4096)
 	var err error
 	var fields []string
@@ -125,9 +149,9 @@ func c09Parse(parser string, head, cont []byte, split bool) c09Outcome {
 			}
 		}
 	}
-	// the first Read call delivers the complete head: any further call means the parser
-	// wanted more input than the head itself
-	if r.calls > 1 {
+	// a Read issued after the complete head had been delivered means the parser wanted more
+	// input than the head itself
+	if r.late > 0 {
 		return c09Outcome{Class: "waits"}
 	}
 	if err != nil {
@@ -136,29 +160,35 @@ func c09Parse(parser string, head, cont []byte, split bool) c09Outcome {
 	return c09Outcome{Class: "accept", Fields: fields, Consumed: r.given - br.Buffered()}
 }
 
-// scripted connection for the live server: one segment, then EOF; remembers how much the
-// server had written when it first asked for more input.
+// scripted connection for the live server: one segment per Read, then EOF; remembers whether
+// the server asked for input after the complete head had been delivered while it had neither
+// dispatched nor answered anything (on an open connection it would be waiting).
 type c09Conn struct {
-	data        []byte
-	off         int
-	out         bytes.Buffer
-	starved     bool
-	outAtStarve int
-	fields      []string
-	dispatched  int
-	closed      bool
+	segs       [][]byte
+	si         int
+	given      int
+	headLen    int
+	out        bytes.Buffer
+	waited     bool
+	fields     []string
+	dispatched int
+	closed     bool
 }
 
 func (c *c09Conn) Read(p []byte) (int, error) {
-	if c.off >= len(c.data) {
-		if !c.starved {
-			c.starved = true
-			c.outAtStarve = c.out.Len()
-		}
+	if c.given >= c.headLen && c.out.Len() == 0 && c.dispatched == 0 {
+		c.waited = true
+	}
+	if c.si >= len(c.segs) {
 		return 0, io.EOF
 	}
-	n := copy(p, c.data[c.off:])
-	c.off += n
+	n := copy(p, c.segs[c.si])
+	if n < len(c.segs[c.si]) {
+		c.segs[c.si] = c.segs[c.si][n:]
+	} else {
+		c.si++
+	}
+	c.given += n
 	return n, nil
 }
 func (c *c09Conn) Write(p []byte) (int, error)        { return c.out.Write(p) }
@@ -193,21 +223,22 @@ type c09NoLog struct{}
 
 func (c09NoLog) Printf(string, ...any) {}
 
-func c09Live(s *Server, head, cont []byte) c09Outcome {
-	conn := &c09Conn{data: append(append([]byte(nil), head...), cont...)}
+func c09Live(s *Server, head, cont []byte, cuts []int, contSeparate bool) c09Outcome {
+	conn := &c09Conn{segs: c09Chunks(head, cont, cuts, contSeparate), headLen: len(head)}
 	s.ServeConn(conn) //nolint:errcheck
 	switch {
+	case conn.waited:
+		return c09Outcome{Class: "waits"}
 	case conn.dispatched > 0:
 		return c09Outcome{Class: "accept", Fields: conn.fields}
-	case conn.starved && conn.outAtStarve == 0:
-		// the server asked for more input than head+continuation before answering anything
-		return c09Outcome{Class: "waits"}
 	}
 	return c09Outcome{Class: "reject"}
 }
 
 func TestVerifC09HeadDelim(t *testing.T) {
 	vfOpen(t)
+	rng := vfRand()
+	quick := vfQuick()
 	srv := &Server{
 		Logger: c09NoLog{},
 		Handler: func(ctx *RequestCtx) {
@@ -272,24 +303,57 @@ func TestVerifC09HeadDelim(t *testing.T) {
 			head := append([]byte(startLine[parser]), rem...)
 			type res struct {
 				cont  string
-				split bool
+				split string
 				o     c09Outcome
 			}
 			var all []res
+			run := func(cb []byte, cuts []int, sep bool) {
+				how := fmt.Sprintf("head cut at %v", cuts)
+				if len(cb) > 0 {
+					if sep {
+						how += ", continuation in a later read"
+					} else {
+						how += ", continuation in the same read"
+					}
+				}
+				var o c09Outcome
+				if parser == "server" {
+					o = c09Live(srv, head, cb, cuts, sep)
+				} else {
+					o = c09Parse(parser, head, cb, cuts, sep)
+				}
+				all = append(all, res{string(cb), how, o})
+				evals++
+			}
+			// (a) the head in one read, every continuation, glued and as a later read
 			for _, ct := range conts {
 				cb := c09Bytes(ct, nextLine[parser])
-				if parser == "server" {
-					all = append(all, res{string(cb), false, c09Live(srv, head, cb)})
-					evals++
-					continue
+				run(cb, nil, false)
+				if len(cb) > 0 && parser != "server" {
+					run(cb, nil, true)
 				}
-				for _, split := range []bool{false, true} {
-					if split && len(cb) == 0 {
-						continue
-					}
-					all = append(all, res{string(cb), split, c09Parse(parser, head, cb, split)})
-					evals++
+			}
+			// (b) the head in two reads (every cut inside the enumerated part of the head in the
+			// thorough tier, the last four and a seeded one in the quick tier) and in three reads
+			// ending one and two bytes before its end; nothing follows / a further message follows
+			// later. The connection stays open: a read after the last head byte is a wait.
+			lo := len(startLine[parser]) - 1
+			var cutsList [][]int
+			if quick {
+				for c := len(head) - 1; c >= len(head)-4 && c >= lo; c-- {
+					cutsList = append(cutsList, []int{c})
 				}
+				cutsList = append(cutsList, []int{1 + rng.Intn(len(head)-1)})
+			} else {
+				for c := lo; c < len(head); c++ {
+					cutsList = append(cutsList, []int{c})
+				}
+			}
+			cutsList = append(cutsList, []int{len(head) - 2, len(head) - 1})
+			further := c09Bytes([]string{"R", "C", "L", "C", "L"}, nextLine[parser])
+			for _, cuts := range cutsList {
+				run(nil, cuts, false)
+				run(further, cuts, true)
 			}
 			key := fmt.Sprintf("%s:%q", parser, rem)
 			cas := func() vfRec {
@@ -304,7 +368,7 @@ func TestVerifC09HeadDelim(t *testing.T) {
 			for _, r := range all {
 				if r.o.Class == "waits" {
 					waited = true
-					viol("needmore", "needmore:"+parser+":"+c09Shape(rem), fmt.Sprintf("%s parser: head %q is complete (blank line under fasthttp's own line rule) but more input was requested (continuation %q, split=%v)",
+					viol("needmore", "needmore:"+parser+":"+c09Shape(rem), fmt.Sprintf("%s parser: head %q is complete (blank line under fasthttp's own line rule) but more input was requested (continuation %q, %s)",
 						parser, head, r.cont, r.split), cas())
 					break
 				}
@@ -317,7 +381,7 @@ func TestVerifC09HeadDelim(t *testing.T) {
 					same := a.Class == b.Class && a.Consumed == b.Consumed && fmt.Sprint(a.Fields) == fmt.Sprint(b.Fields)
 					if !same {
 						differ = true
-						viol("cont-dep", "cont-dep:"+key, fmt.Sprintf("%s parser: head %q gives %s when followed by %q but %s when followed by %q (split=%v)",
+						viol("cont-dep", "cont-dep:"+key, fmt.Sprintf("%s parser: head %q gives %s when followed by %q but %s when followed by %q (%s)",
 							parser, head, a, all[0].cont, b, r.cont, r.split), cas())
 						break
 					}
